@@ -21,7 +21,7 @@ BUDGET = {
 }
 RULE = (
     "cases: failure kind (remote body raises / callback raises on initiator / callback raises on worker / same with the "
-    "channel object dropped + gc) x failure position 0-4 within the item stream x observer style (receive, waitclose, "
+    "channel object dropped + gc / body error fetched only after terminate or after the worker was killed) x failure position 0-4 within the item stream x observer style (receive, waitclose, "
     "endmarker callback) x 0-2 sibling channels with echo traffic x transports popen/bare/socket/proxy x backends, "
     "small pipes, schedules with 0-3 line preemptions; then a fresh remote_exec probe.  Non-trivial = the failure "
     "was triggered under a schedule with real choices; distinct = distinct event-log digests."
